@@ -239,6 +239,12 @@ def directed(ctx, only=None):
              ("all(y for y in xs) and len(xs) > 1000", {"xs": [1, 0, 2]}), ("all(y - 5 for y in xs) and len(xs) > 0", {"xs": [1, 5, 2]}),
              ("all(c.strip() for c in [s, CS]) and x > 0", {"s": "  "}), ("not all(y for y in xs) and len(xs) > 1000", {"xs": [1, 0]}),
              ("(all(y for y in xs) or x > 1000) and all(ident(y) for y in ys)", {"xs": [0], "ys": [3, 0]}),
+             # a conditional expression whose test can not be re-computed (it hinges on a None-bound name): the branch that
+             # Python did not take is not evaluated for the message either
+             ("(xs[0] if id is not None else len(xs)) > 1000", {"id": None, "xs": []}),
+             ("(10 // n if ident(id) else x) > 1000", {"id": None, "n": 0}),
+             ("(x if id is None else xs[5]) > 1000", {"id": None}),
+             ("(p(1, x) if id is not None else p(2, n)) > 1000", {"id": None}),
              # an unknown (None-bound) value inside a mapping unpacked into a call (finding D32)
              ("kw(**{'a': len([*xs, id]), 'b': n}) > 1000", {"id": None}), ("kw(**{'a': ident(id) or 1}) > 1000", {"id": None}),
              ("((m @ m)[0, 1] + x) > 1000", {}), ("x > 1000 or ((m @ (m))[1, 1] > 1000)", {}),
